@@ -32,6 +32,7 @@ type CaseC17 struct {
 	Yield      int                    `json:"yield"`                  // Gosched every Yield-th operation
 	SeqViaJSON bool                   `json:"seq_via_json,omitempty"` // the shared MapSeq went through Copy (JSON): float64 sequence numbers
 	Alias      *AliasSpec             `json:"alias,omitempty"`        // one container object gets a second parent in the shared Map
+	DeepChain  int                    `json:"deep_chain,omitempty"`   // the shared Map is a chain of this many nested single-entry maps (built in the check, not stored)
 }
 
 func init() { register("C17", checkC17) }
@@ -58,6 +59,24 @@ var c17SharedEncoders = map[string]bool{"Xml": true, "XmlIndent": true, "Json": 
 func genC17(t *rapid.T) CaseC17 {
 	g := XGen{Opts: defaultOpts(), Extras: true, Namespaces: true}
 	c := CaseC17{Doc: g.Elem(t, 3)}
+	if rapid.IntRange(0, 49).Draw(t, "deep") == 0 {
+		// many goroutines walking one very deep Map at the same time: whatever bounds a single walk must not be shared
+		c.DeepChain = rapid.IntRange(1000, 1200).Draw(t, "depth")
+		ng := rapid.IntRange(12, 14).Draw(t, "goroutines")
+		c.Plans = make([][]OpC17, ng)
+		for gi := range c.Plans {
+			n := rapid.IntRange(3, 5).Draw(t, "nops")
+			for i := 0; i < n; i++ {
+				o := OpC17{Kind: rapid.SampledFrom([]string{"LeafNodes", "LeafPaths", "LeafValues", "LeafNodes", "ValuesForKey", "PathsForKey"}).Draw(t, "kind")}
+				if o.Kind == "ValuesForKey" || o.Kind == "PathsForKey" {
+					o.Arg = "leaf"
+				}
+				c.Plans[gi] = append(c.Plans[gi], o)
+			}
+		}
+		c.Procs, c.Yield = 16, 1
+		return c
+	}
 	var keys []string
 	var shape *shape
 	lil := false
@@ -276,7 +295,18 @@ func checkC17(c CaseC17, info *Info) *Failure {
 	defer resetOptions()
 	doc := []byte(c.Doc.String())
 	var shared mxj.Map
-	if c.Value != nil {
+	if c.DeepChain > 0 {
+		var v interface{} = map[string]interface{}{"leaf": "x", "n": 1.0}
+		for i := 0; i < c.DeepChain; i++ {
+			m := map[string]interface{}{"a": v}
+			if i%100 == 0 {
+				m["leaf"] = float64(i)
+			}
+			v = m
+		}
+		shared = mxj.Map(v.(map[string]interface{}))
+		info.Class("deep chain shared by all goroutines")
+	} else if c.Value != nil {
 		shared = mxj.Map(copyMap(c.Value))
 		if c.Alias != nil && applyAlias(shared, *c.Alias, true) {
 			info.Class("shared sub-structure in the shared Map")
